@@ -27,7 +27,8 @@ Inductive ext_result := Ext_ok (thisbytes : N) (bonus : nat) | Ext_einval | Ext_
 Inductive qq_outcome :=
 | QQ_ok                              (* reads everything, exits 0 *)
 | QQ_exit (code : nat)               (* reads everything, exits with a non-zero code *)
-| QQ_die_write                       (* dies before everything was written: a write fails (EPIPE) *)
+| QQ_die_write                       (* dies before the envelope was written completely: the envelope write or waitpid shows it *)
+| QQ_die_early                       (* is dead before the first data line is written: that write fails with EPIPE *)
 | QQ_signal.                         (* reads everything, killed by a signal *)
 
 Record oracles := {
@@ -38,6 +39,7 @@ Record oracles := {
   o_mx : bytes -> nat;                            (* ask_dnsmx on the address' domain: 0 ok, 1 none, 2 null MX *)
   o_qq : nat -> qq_outcome;                       (* behaviour of the k-th qmail-queue invocation *)
   o_databytes : N;                                (* control/databytes, 0 = unlimited *)
+  o_liphost : bytes;                              (* control/localiphost (default: control/me) *)
   o_trace : bytes -> bytes -> bool -> bytes -> N -> bytes   (* Received-SPF + Received lines: helo, sender, esmtp, first recipient, relayclient *)
 }.
 
@@ -65,7 +67,10 @@ Inductive note :=
 | NMail (sender : bytes)                     (* MAIL FROM accepted *)
 | NRcpt (addr : bytes) (cls : rclass)        (* RCPT TO accepted *)
 | NWithdraw                                  (* second recipient of a bounce: all recipients accepted so far are withdrawn *)
-| NData (k : nat).                           (* DATA accepted: 354 sent, k-th qmail-queue invocation runs *)
+| NData (k : nat)                            (* DATA accepted: 354 sent, k-th qmail-queue invocation runs *)
+| NBad                                       (* check_max_bad_commands() counted one more bad command *)
+| NBadReset                                  (* the bad command counter was set to 0 *)
+| NBadClose.                                 (* check_max_bad_commands() ends the connection *)
 
 Inductive event :=
 | Reply (code : N)
@@ -134,8 +139,8 @@ Fixpoint wait_for_quit (fuel : nat) (s : sstate) : list event :=
           (* linein is stale after a read error; the harness never sends QUIT in that situation *)
           let isquit := match it with Line l => strncaseeq [81; 85; 73; 84]%N l && Nat.eqb (length l) 4 | _ => false end in
           if isquit then [Reply 221; Closed]
-          else if Nat.ltb MAXBADCMDS (badcmds s) then [Reply 550; Closed]
-          else Reply 503 :: wait_for_quit f (set_badcmds s (S (badcmds s)))
+          else if Nat.ltb MAXBADCMDS (badcmds s) then [Note NBadClose; Reply 550; Closed]
+          else Note NBad :: Reply 503 :: wait_for_quit f (set_badcmds s (S (badcmds s)))
       end
   end.
 
@@ -161,11 +166,15 @@ Definition maxbytes (o : oracles) : N := if N.eqb (o_databytes o) 0 then 1844674
 Definition is_received (l : bytes) : bool := strncaseeq [82; 101; 99; 101; 105; 118; 101; 100; 58]%N l.
 
 Inductive dend :=
-| D_eod (msg : bytes) (msgsize : N)            (* terminating dot reached, message complete *)
-| D_toobig (linein : bytes)                    (* msgsize > maxbytes: drain, EMSGSIZE *)
-| D_loop (linein : bytes)                      (* too many hops: drain, 554 *)
+| D_eod (msg : bytes) (msgsize : N) (seen : list bytes)   (* terminating dot reached, message complete *)
+| D_toobig (linein : bytes) (seen : list bytes)           (* msgsize > maxbytes: drain, EMSGSIZE *)
+| D_loop (linein : bytes) (seen : list bytes)             (* too many hops: drain, 554 *)
 | D_readerr (e2big : bool) (linein : bytes)    (* net_read failed: drain, 500 / E2BIG; linein keeps the previous line *)
+| D_wfail (linein : bytes)                     (* a write to qmail-queue failed (EPIPE): err_write *)
 | D_dead | D_stuck.
+
+(** [seen] is a ghost: the data lines written to the queue so far, oldest first; it does not
+    influence the behaviour and exists for the statements of C02 / C15. *)
 
 (** one net_read inside smtp_data *)
 Definition dread (r : rstate) (prev : bytes) : (dend + bytes) * rstate :=
@@ -178,26 +187,29 @@ Definition dread (r : rstate) (prev : bytes) : (dend + bytes) * rstate :=
   | Line l => (inr l, r')
   end.
 
-Definition dfinal (o : oracles) (l msg : bytes) (msgsize : N) : dend :=
-  if N.ltb (maxbytes o) msgsize then D_toobig l else D_eod msg msgsize.
+Definition dfinal (o : oracles) (l msg : bytes) (msgsize : N) (seen : list bytes) : dend :=
+  if N.ltb (maxbytes o) msgsize then D_toobig l seen else D_eod msg msgsize seen.
 
 (** the body loop: [l] is the line in linein *)
-Fixpoint body_loop (fuel : nat) (o : oracles) (r : rstate) (l msg : bytes) (msgsize : N) : dend * rstate :=
+Fixpoint body_loop (fuel : nat) (o : oracles) (wfail : bool) (r : rstate) (l msg : bytes) (msgsize : N) (seen : list bytes)
+  : dend * rstate :=
   match fuel with
   | O => (D_stuck, r)
   | S f =>
-      if is_dot l || N.ltb (maxbytes o) msgsize then (dfinal o l msg msgsize, r)
+      if is_dot l || N.ltb (maxbytes o) msgsize then (dfinal o l msg msgsize seen, r)
+      else if wfail then (D_wfail l, r)
       else
         let msg' := msg ++ unstuff l ++ [LF] in
         let sz' := (msgsize + N.of_nat (length (unstuff l)) + 2)%N in
         match dread r l with
         | (inl d, r') => (d, r')
-        | (inr l', r') => body_loop f o r' l' msg' sz'
+        | (inr l', r') => body_loop f o wfail r' l' msg' sz' (seen ++ [l])
         end
   end.
 
 (** the header loop, then the empty line and the body *)
-Fixpoint hdr_loop (fuel : nat) (o : oracles) (r : rstate) (l msg : bytes) (msgsize : N) (hops : nat) : dend * rstate :=
+Fixpoint hdr_loop (fuel : nat) (o : oracles) (wfail : bool) (r : rstate) (l msg : bytes) (msgsize : N) (hops : nat) (seen : list bytes)
+  : dend * rstate :=
   match fuel with
   | O => (D_stuck, r)
   | S f =>
@@ -205,29 +217,31 @@ Fixpoint hdr_loop (fuel : nat) (o : oracles) (r : rstate) (l msg : bytes) (msgsi
         match l with
         | [] =>
             (* "\n" is written, msgsize += 2, next line, body loop *)
+            if wfail then (D_wfail l, r) else
             match dread r l with
             | (inl d, r') => (d, r')
-            | (inr l', r') => body_loop f o r' l' (msg ++ [LF]) (msgsize + 2)%N
+            | (inr l', r') => body_loop f o wfail r' l' (msg ++ [LF]) (msgsize + 2)%N (seen ++ [l])
             end
-        | _ => (dfinal o l msg msgsize, r)
+        | _ => (dfinal o l msg msgsize seen, r)
         end
       else
         let rcv := negb (N.eqb (nth 0 l 0%N) DOT) && is_received l in
         let hops' := if rcv then S hops else hops in
-        if rcv && Nat.ltb MAXHOPS hops' then (D_loop l, r)
+        if rcv && Nat.ltb MAXHOPS hops' then (D_loop l seen, r)
+        else if wfail then (D_wfail l, r)
         else
           let msg' := msg ++ unstuff l ++ [LF] in
           let sz' := (msgsize + N.of_nat (length (unstuff l)) + 2)%N in
           match dread r l with
           | (inl d, r') => (d, r')
-          | (inr l', r') => hdr_loop f o r' l' msg' sz' hops'
+          | (inr l', r') => hdr_loop f o wfail r' l' msg' sz' hops' (seen ++ [l])
           end
   end.
 
-Definition data_loop (fuel : nat) (o : oracles) (r : rstate) (trace : bytes) : dend * rstate :=
+Definition data_loop (fuel : nat) (o : oracles) (wfail : bool) (r : rstate) (trace : bytes) : dend * rstate :=
   match dread r [] with
   | (inl d, r') => (d, r')
-  | (inr l, r') => hdr_loop fuel o r' l trace 0%N 0
+  | (inr l, r') => hdr_loop fuel o wfail r' l trace 0%N 0 []
   end.
 
 (** eat everything up to the line with the single dot (loop_data / err_write); [prev_dot]: linein already is "." *)
@@ -244,9 +258,32 @@ Fixpoint drain (fuel : nat) (r : rstate) (lastline : bytes) : bool * rstate :=
       end
   end.
 
-Definition envelope (from : bytes) (rc : list (bytes * bool)) : bytes :=
+(** the drain loop of err_write: it stops at the first read error (second component: stopped by an error) *)
+Fixpoint drain_break (fuel : nat) (r : rstate) (lastline : bytes) : bool * bool * rstate :=
+  if is_dot lastline then (true, false, r) else
+  match fuel with
+  | O => (false, false, r)
+  | S f =>
+      let '(it, r') := net_read r in
+      match it with
+      | Dead | Stuck => (false, false, r')
+      | Line l => drain_break f r' l
+      | _ => (true, true, r')
+      end
+  end.
+
+(** queue_envelope(): a recipient whose domain is an address literal (it was accepted only because the
+    literal is the local IP address) is written as local@localiphost *)
+Fixpoint rewrite_literal (liphost addr : bytes) : bytes :=
+  match addr with
+  | [] => []
+  | 64%N :: 91%N :: _ => 64%N :: liphost            (* "@[" *)
+  | b :: r => if N.eqb b 64 then addr else b :: rewrite_literal liphost r
+  end.
+
+Definition envelope (liphost from : bytes) (rc : list (bytes * bool)) : bytes :=
   [70%N] ++ from ++ [0%N]
-  ++ concat (map (fun x => [84%N] ++ fst x ++ [0%N]) (filter (fun x => snd x) rc))
+  ++ concat (map (fun x => [84%N] ++ rewrite_literal liphost (fst x) ++ [0%N]) (filter (fun x => snd x) rc))
   ++ [0%N].
 
 (** ---------- handlers ---------- *)
@@ -352,14 +389,15 @@ Definition h_data (fuel : nat) (o : oracles) (s : sstate) : list event * hres * 
                     relayclient := relayclient s; thisbytes := thisbytes s; qcount := S k |} in
         let first := match rcpts s with (a, _) :: _ => a | [] => [] end in
         let trace := o_trace o (helostr s) (mailfrom s) (esmtp s) first (relayclient s) in
-        let '(de, r') := data_loop fuel o (rd s) trace in
+        let wfail := match o_qq o k with QQ_die_early => true | _ => false end in
+        let '(de, r') := data_loop fuel o wfail (rd s) trace in
         let s' := set_rd s r' in
         match de with
         | D_dead => ([Note (NData k); Reply 354], HEXIT, s')
         | D_stuck => ([Note (NData k); Reply 354; EStuck], HEXIT, s')
-        | D_eod msg _ =>
+        | D_eod msg _ _ =>
             (* queue_envelope (freedata) + queue_result *)
-            let env := envelope (mailfrom s') (rcpts s') in
+            let env := envelope (o_liphost o) (mailfrom s') (rcpts s') in
             let sf := freedata s' in
             match o_qq o k with
             | QQ_ok => ([Note (NData k); Reply 354; Handoff env msg; Note NBoundary; Reply 250], H0, sf)
@@ -367,12 +405,17 @@ Definition h_data (fuel : nat) (o : oracles) (s : sstate) : list event * hres * 
                 if Nat.leb QQ_PERM_LO c && Nat.leb c QQ_PERM_HI then ([Note (NData k); Reply 354; Note NBoundary; Reply 554], HEDONE, sf)
                 else ([Note (NData k); Reply 354; Note NBoundary; Reply 451], HEDONE, sf)
             | QQ_signal => ([Note (NData k); Reply 354; Note NBoundary; Reply 451], HEDONE, sf)
-            | QQ_die_write => ([Note (NData k); Reply 354; Note NBoundary; Reply 451], HEDONE, sf)
+            | QQ_die_write | QQ_die_early => ([Note (NData k); Reply 354; Note NBoundary; Reply 451], HEDONE, sf)
             end
-        | D_toobig l =>
+        | D_wfail l =>
+            (* err_write: the transaction is dropped, the rest of the data is read up to the dot or to the first read error, 451 *)
+            let '(alive, _, r2) := drain_break fuel r' l in
+            if negb alive then ([Note (NData k); Reply 354], HEXIT, set_rd s' r2)
+            else ([Note (NData k); Reply 354; Note NBoundary; Reply 451], HEDONE, freedata (set_rd s' r2))
+        | D_toobig l _ =>
             let '(alive, r2) := drain fuel r' l in
             if alive then ([Note (NData k); Reply 354; Note NBoundary], HEMSGSIZE, freedata (set_rd s' r2)) else ([Note (NData k); Reply 354], HEXIT, set_rd s' r2)
-        | D_loop l =>
+        | D_loop l _ =>
             let '(alive, r2) := drain fuel r' l in
             if alive then ([Note (NData k); Reply 354; Note NBoundary; Reply 554], HEDONE, freedata (set_rd s' r2)) else ([Note (NData k); Reply 354], HEXIT, set_rd s' r2)
         | D_readerr big l =>
@@ -394,17 +437,17 @@ Fixpoint find_cmd (tbl : list (list N * N * nat * Z * N)) (i : nat) (line : byte
 
 (** the error branch of smtploop for a non-zero flagbogus *)
 Definition on_error (s : sstate) (h : hres) : list event * option sstate :=
-  if Nat.ltb MAXBADCMDS (badcmds s) then ([Reply 550; Closed], None)
+  if Nat.ltb MAXBADCMDS (badcmds s) then ([Note NBadClose; Reply 550; Closed], None)
   else
     let s := set_badcmds s (S (badcmds s)) in
     match h with
-    | HEINVAL | HE2BIG => ([Reply 500], Some (tarpit s))
-    | HENOEXEC => ([Reply 501], Some (tarpit s))
-    | HSEQ => ([Reply 503], Some (tarpit s))
-    | HEDONE => ([], Some (set_badcmds s 0))
-    | HEMSGSIZE => ([Reply 552], Some (set_badcmds s 0))
-    | HUNKNOWN => ([Reply 500], Some (set_badcmds s 0))   (* default branch: "500 5.3.0 unknown error" *)
-    | HEBOGUS => ([], Some s)
+    | HEINVAL | HE2BIG => ([Note NBad; Reply 500], Some (tarpit s))
+    | HENOEXEC => ([Note NBad; Reply 501], Some (tarpit s))
+    | HSEQ => ([Note NBad; Reply 503], Some (tarpit s))
+    | HEDONE => ([Note NBad; Note NBadReset], Some (set_badcmds s 0))
+    | HEMSGSIZE => ([Note NBad; Note NBadReset; Reply 552], Some (set_badcmds s 0))
+    | HUNKNOWN => ([Note NBad; Note NBadReset; Reply 500], Some (set_badcmds s 0))   (* default branch: "500 5.3.0 unknown error" *)
+    | HEBOGUS => ([Note NBad], Some s)
     | H0 | HEXIT => ([], Some s)
     end.
 
@@ -499,7 +542,7 @@ Definition step (f : nat) (o : oracles) (s : sstate) : list event * option sstat
       let '(evs, h, s1) := dispatch f o s l in
       match h with
       | HEXIT => (evs, None)
-      | H0 => (evs, Some s1)
+      | H0 => (evs ++ [Note NBadReset], Some s1)        (* badcmds = 0 *)
       | _ => let '(ev, so) := on_error s1 h in (evs ++ ev, so)
       end
   end.
